@@ -341,9 +341,21 @@ def main(run):
     corpus = list(vlib.read_corpus("C20"))
     lines = ["lfconst"] + corpus
     kinds = ["const"] + ["corpus"] * len(corpus)
-    gl, gk = gen_cases(run, r)
-    lines += gl
-    kinds += gk
+    if getattr(run, "replay", None):
+        # --replay <file>: only the cases named in a replay file ("case: ..." lines) or a case file
+        rl = []
+        for l in open(run.replay):
+            l = l.strip()
+            for pre in ("case: ", "original case: "):
+                if l.startswith(pre):
+                    l = l[len(pre):]
+            if l.split(" ")[0] in ("wk", "lk", "get"):
+                rl.append(l)
+        lines, kinds, corpus = ["lfconst"] + rl, ["const"] + ["replay"] * len(rl), []
+    else:
+        gl, gk = gen_cases(run, r)
+        lines += gl
+        kinds += gk
 
     om, _ = par_run(model, lines)
     oc, crashes = par_run(drv, lines)
@@ -377,9 +389,12 @@ def main(run):
                     _, _, err = vlib.run_lines(asan, [], [san_lines[i]], timeout=120, env=env)
                 except Exception:
                     pass
-                m = re.search(r"ERROR: AddressSanitizer: (\S+).*?\n((?:\s+#\d+ .*\n){1,6})", err)
+                m = re.search(r"ERROR: (?:AddressSanitizer|UndefinedBehaviorSanitizer): (\S+)", err) or \
+                    re.search(r"runtime error: ([^\n]+)", err)
+                frames = [f for f in re.findall(r"#\d+ 0x[0-9a-f]+ in (\S+)", err)
+                          if "Interceptor" not in f and f not in ("bcmp", "memcmp")]
                 what = "sanitizer trap (%s) in %s" % (m.group(1) if m else "rc=%d" % rc,
-                                                     " <- ".join(re.findall(r" in (\S+) ", m.group(2))[:4]) if m else "?")
+                                                     " <- ".join(frames[:3]) or "?")
                 run.violation("memory error while listing: " + what,
                               "case: %s\nvariant: asan (clang -fsanitize=address,undefined)\n%s\n" % (san_lines[i], err[:6000]),
                               tag="asan%d" % nb)
